@@ -265,7 +265,8 @@ class StructureMetaType(MetaType):
             if cls.__align__ and field.offset is None and not _continues_unit(field, bit_buffer):
                 # Previous field was dynamically sized and we need to align
                 # (a bit field that continues the current storage unit is already positioned)
-                offset += -offset & (field.alignment - 1)
+                # (alignment is relative to the start of the structure, like the offsets of the fields before it)
+                offset += -(offset - struct_start) & (field.alignment - 1)
                 stream.seek(offset)
 
             if field.bits:
@@ -285,8 +286,8 @@ class StructureMetaType(MetaType):
             result[field._name] = value
 
         if cls.__align__:
-            # Align the stream
-            stream.seek(-stream.tell() & (cls.alignment - 1), io.SEEK_CUR)
+            # Align the stream (tail padding, relative to the start of the structure)
+            stream.seek(-(stream.tell() - struct_start) & (cls.alignment - 1), io.SEEK_CUR)
 
         # Using type.__call__ directly calls the __init__ method of the class
         # This is faster than calling cls() and bypasses the metaclass __call__ method
@@ -335,7 +336,7 @@ class StructureMetaType(MetaType):
                 )
                 if not bit_buffer._type or is_bitbuffer_boundary:
                     # Previous field was dynamically sized and we need to align
-                    align_pad = -offset & (field.alignment - 1)
+                    align_pad = -(offset - struct_start) & (field.alignment - 1)
                     stream.write(b"\x00" * align_pad)
                     offset += align_pad
 
@@ -356,8 +357,8 @@ class StructureMetaType(MetaType):
             bit_buffer.flush()
 
         if cls.__align__:
-            # Align the stream
-            stream.write(b"\x00" * (-stream.tell() & (cls.alignment - 1)))
+            # Align the stream (tail padding, relative to the start of the structure)
+            stream.write(b"\x00" * (-(stream.tell() - struct_start) & (cls.alignment - 1)))
 
         return num
 
